@@ -162,22 +162,30 @@ pub proof fn lemma_concat_filters_mono(fs: Seq<Vec<u8>>, a: int, b: int)
 // ---- reader --------------------------------------------------------------------------------
 //@struct src/tables/filter_block.rs :: FilterBlockReader
 
+pub open spec fn fbr_wf(fr: &FilterBlockReader) -> bool {
+    &&& fr.encoded_range_size_exponent < 64
+    &&& fr.filter_policy.fp_wf()
+    &&& forall|i: int| 0 <= i < fr.filters@.len() ==> (#[trigger] fr.filters@[i])@.len() <= 0x2000_0000
+}
+
+/// The reader's answer: the filter at index (block offset >> stored exponent) is consulted;
+/// a missing / unparsable filter answers "may match", an empty filter answers "no".
+pub open spec fn fbr_answer(fr: &FilterBlockReader, block_offset: u64, key: Seq<u8>) -> bool {
+    let idx = (block_offset as int) / (vstd::arithmetic::power2::pow2(fr.encoded_range_size_exponent as nat) as int);
+    if fr.filters@.len() == 0 || idx >= fr.filters@.len() { true }
+    else if fr.filters@[idx]@.len() == 0 { false }
+    else if fr.filters@[idx]@.len() < 2 { true }
+    else { fr.filter_policy.fp_matches(fr.filters@[idx]@, key) }
+}
+
 //@impl src/tables/filter_block.rs :: impl FilterBlockReader
 //@fn key_may_match props: C14
 //@sig
     requires
-        self.encoded_range_size_exponent < 64,
-        self.filter_policy.fp_wf(),
+        fbr_wf(self),
         key@.len() <= u32::MAX,
-        forall|i: int| 0 <= i < self.filters@.len() ==> (#[trigger] self.filters@[i])@.len() <= 0x2000_0000,
     ensures
-        ({
-            let idx = (block_offset as int) / (vstd::arithmetic::power2::pow2(self.encoded_range_size_exponent as nat) as int);
-            if self.filters@.len() == 0 || idx >= self.filters@.len() { r }
-            else if self.filters@[idx]@.len() == 0 { !r }
-            else if self.filters@[idx]@.len() < 2 { r }
-            else { r == self.filter_policy.fp_matches(self.filters@[idx]@, key@) }
-        }), // [consults-filter-at-offset-shifted-by-exponent]
+        r == fbr_answer(self, block_offset, key@), // [consults-filter-at-offset-shifted-by-exponent]
 //@body-start
         proof {
             let e = self.encoded_range_size_exponent;
